@@ -117,6 +117,7 @@ GENERATORS = [
     ('Gen_Parity.v', 'gen_parity.py', ['src/lib/crypto/odd.h']),
     ('Gen_Table.v', 'gen_table.py', ['src/lib/P11Objects.cpp', 'src/lib/P11Attributes.h', 'src/lib/P11Attributes.cpp', 'src/lib/P11Objects.h']),
     ('Gen_Entry.v', 'gen_entry.py', ['src/lib/SoftHSM.cpp', 'src/lib/SoftHSM.h', 'src/lib/access.h']),
+    ('Gen_Token.v', 'gen_token.py', ['src/lib/session_mgr/SessionManager.cpp', 'src/lib/slot_mgr/Token.cpp', 'src/lib/session_mgr/SessionManager.h', 'src/lib/slot_mgr/Token.h']),
     ('Gen_Pure.v', 'gen_pure.py', ['src/lib/access.cpp', 'src/lib/session_mgr/Session.cpp', 'src/lib/P11Attributes.cpp', 'src/lib/P11Attributes.h',
                                    'src/lib/session_mgr/Session.h', 'src/lib/access.h']),
 ]
